@@ -51,6 +51,101 @@ for pid in ("C04", "C05", "C16"):
           REC, "reference recheck model; damage sets of size <=1 (quick) / 2 "
           "(thorough)", "4/C04-C05-C16")
 
+BFS = ("explicit-state breadth-first search over edit histories to a fixpoint; "
+       "state = metafile bytes, transition = one real edit (library or CLI) "
+       "on a copy of the state file")
+claim("C06", "E3", "explicit-state BFS over edit histories (state = file "
+      "bytes) + exhaustive creator x option-subset x listing-order sweep; "
+      "strict canonical-bencode reference decoder as oracle",
+      BFS + "; every reached state and every created metafile is decoded by a "
+      "strict canonical-only reference decoder and checked structurally",
+      "reference strict decoder; finite value alphabet per field", "4/C06")
+claim("C07", "E3", "explicit-state BFS over edit histories to a fixpoint; "
+      "span-preserving reference decoder + reference edit model per transition",
+      BFS + "; per transition every unnamed key must keep its raw byte span, "
+      "named keys must have the model value, tracker-only edits must keep the "
+      "raw info span; CLI flag orders enumerated exhaustively for <=3 flags",
+      "finite value alphabet; canonical initial metafiles", "4/C07")
+claim("C17", "E2", "stateless deviation-bounded exploration of fault and "
+      "crash points at every filesystem operation of the real edit "
+      "(FS-operation shim, crash = snapshot from the OS)",
+      "every choice vector with <=1 (quick) / <=2 (thorough) injected faults "
+      "over the filesystem operations the real edit performs: crash before "
+      "each operation, errno failures, partial / short raw writes; verdict on "
+      "the metafile path at the crash snapshot or after the error",
+      "Python-visible operations; no power-loss reordering; audit hook "
+      "proves the seams own every mutating OS event of the fault-free run",
+      "4/C17")
+claim("C08", "E2", "stateless choice-point exploration: configuration axes "
+      "with deviation bound, full product of directory-listing permutations "
+      "at every os.listdir/scandir call",
+      "every choice vector within the bound executed on the real creators, "
+      "each on a fresh copy of the payload; info bytes compared with the "
+      "default run and name with the real base name",
+      "two payloads; axes alphabets as listed in the evidence", "4/C08")
+claim("C09", "E3", "explicit-state BFS over operation histories, each "
+      "re-executed in a fresh fork of a pristine process image; differential "
+      "oracle against a pristine process on the same filesystem state",
+      "all histories up to depth 3 (quick) / 5 (thorough) over 16 operations, "
+      "deduplicated on (canonical sandbox, introspective process-state scan); "
+      "the last operation's observable is compared with the same operation "
+      "in a pristine fork, cross-validated against a brand-new interpreter",
+      "owned clock; observables are path-free", "4/C09")
+claim("C11", "E1", "exhaustive product of metafile key sets x string "
+      "alphabet x version requests on the real magnet(); reference magnet "
+      "model from the raw info span",
+      "full product of versions x announce forms x url-list forms x unknown "
+      "keys x every string of length <=2 (thorough 3) over a URL-significant "
+      "alphabet x version requests x route; URI parsed with urllib and "
+      "compared with the model", "UTF-8 names and URLs", "4/C11")
+claim("C12", "E1", "exhaustive enumeration of integer intervals and "
+      "structured families through validator, creator, CLI and config file; "
+      "arithmetic specification as oracle",
+      "every integer -1024..2^24 (thorough 2^28), m*2^k and 2^k+-d families, "
+      "string catalogue, end-to-end routes; automatic choice on every size "
+      "<= 2^20 (2^22) and c*2^e+d families, monotone along the domain",
+      "integers beyond the interval only on the structured families", "4/C12")
+RB = ("bounded-exhaustive enumeration of rebuild executions of the real code: "
+      "worlds x metafile families x scatterings x decoys x listing orders "
+      "(+ batches in every listing order of the metafile directory)")
+claim("C13", "E1", "explicit enumeration of worlds x families x scatterings x "
+      "decoys x listing orders on the real Assembler; reference layout "
+      "oracle; scaled model with R confirmation",
+      RB + "; destination compared byte for byte with the reference layout",
+      "intact copies present under the same file names", "4/C13")
+claim("C14", "E3", "explicit enumeration of destination pre-state vectors x "
+      "rebuild histories on the real code; snapshot + audit-hook invariants "
+      "on every transition",
+      "every vector of per-file destination pre-states x decoys x a history "
+      "of 3 (thorough 4) rebuilds; invariants: sources and metafiles "
+      "unchanged, full-length destination files untouched, every written "
+      "file is a verified candidate copy at an assigned path, no "
+      "all-different decoy placed, no low-level mutating event outside the "
+      "destination", "small world catalogue at real scale", "4/C14")
+claim("C19", "E1", "exhaustive product of hostile name / path-element "
+      "sequences x version on the real rebuild; snapshot + audit hook oracle",
+      "every sequence of <=2 hostile elements (+ final element) x hostile "
+      "names x v1/v2/hybrid with a matching candidate present; nothing "
+      "outside the destination may be created, changed or deleted",
+      "escapes are kept inside the sandbox by construction (destination 20 "
+      "levels deep; > 20 '..' skipped)", "4/C19")
+claim("C18", "E2", "exhaustive product of configuration axes (command "
+      "spellings, flags, sandbox states) on the real commands; before/after "
+      "snapshot + audit hook of C-level filesystem events",
+      "all read-only command spellings x -q/-v x content root/parent x "
+      "payload intact/damaged/missing x versions; create heads x out forms x "
+      "progress x magnet x option sets; rename variants; oracle = snapshot "
+      "difference and audited creation/deletion events",
+      "sandbox contains the files a buggy probe would hit ('.torrent')",
+      "4/C18")
+claim("C20", "E2", "exhaustive product of option subsets/values x version x "
+      "align x out through three routes + all CLI argument orders for small "
+      "subsets; differential oracle + documented field placement",
+      "288 option combinations x 4 version/align x 2 out forms, each through "
+      "keywords, CLI flags and config file; every permutation and content "
+      "path position for <=3 flags", "one payload; small value alphabet",
+      "4/C20")
+
 
 def registered():
     out = subprocess.run(
